@@ -243,6 +243,10 @@ pub struct ClientSpec {
     /// a status client takes this long between the Status Response and its Ping
     #[serde(default)]
     pub ping_delay_ns: u64,
+    /// the end of stream of the client's hang-up reaches the server's reader this much later (the hang-up itself
+    /// is visible to the transport at once)
+    #[serde(default)]
+    pub eof_delay_ns: u64,
     /// (requested key, key the answer is sent under): the client answers a Cookie Request under another key, with the
     /// cookie it holds for that other key
     #[serde(default, skip_serializing_if = "Vec::is_empty")]
@@ -290,6 +294,7 @@ impl ClientSpec {
             early_ack: false,
             len_pad: 0,
             cookie_rekey: vec![],
+            eof_delay_ns: 0,
             info: default_info(),
             ping_delay_ns: 0,
             rng: rng.next_u64(),
@@ -612,7 +617,7 @@ impl<'a> Engine<'a> {
         self.closed = true;
         self.pipe.close(
             if reset { EofKind::Reset } else { EofKind::Clean },
-            Gate::Now,
+            if self.spec.eof_delay_ns > 0 { Gate::Delay { ns: self.spec.eof_delay_ns } } else { Gate::Now },
         );
     }
 
